@@ -232,6 +232,24 @@ def direct_property(ops):
     return None
 
 
+def probe_all_presets(presets):
+    """fresh instance of every preset renders every probe document: a fingerprint of any state
+    that lives outside instances (module globals, caches, class attributes)"""
+    from markdown_it import MarkdownIt
+
+    out = {}
+    for name in sorted(presets):
+        for upd in (None, {"html": True, "typographer": True, "linkify": False}):
+            try:
+                md = MarkdownIt(name, upd)
+            except Exception as e:  # noqa: BLE001
+                out[(name, bool(upd))] = "ctor " + type(e).__name__
+                continue
+            for src in PROBE_DOCS + docs.seeds()[:40]:
+                out[(name, bool(upd), src)] = call(md, "render", src)
+    return out
+
+
 def refs_do_not_travel():
     from markdown_it import MarkdownIt
 
@@ -256,6 +274,7 @@ def run(ctx) -> int:
     c11.PRESETS_CACHE.clear()
     c11.PRESETS_CACHE.update(gen["presets"])
     rng = rng_for("C12", seed)
+    fingerprint0 = probe_all_presets(gen["presets"])
     n_hist = 150 if tier == "quick" else 2500
     hists = [gen_world_history(rng, rng.randrange(2, 18 if tier == "quick" else 40), gen["presets"], gen["rules"])
              for _ in range(n_hist)]
@@ -284,6 +303,13 @@ def run(ctx) -> int:
         d = refs_do_not_travel()
         if d is not None:
             direct_fail = ([], d)
+    if direct_fail is None:
+        fingerprint1 = probe_all_presets(gen["presets"])
+        for key in fingerprint0:
+            if fingerprint0[key] != fingerprint1.get(key):
+                direct_fail = ([], {"kind": "a fresh instance renders a document differently after the histories of this run than before them (state outside instances)",
+                                    "preset": key[0], "src": key[-1], "before": fingerprint0[key], "after": fingerprint1.get(key)})
+                break
     ksample = list(zip(lines, model_out))[:: max(1, len(lines) // 25)]
     kn, kbad = run_kernel(ksample, "c12")
 
